@@ -1074,7 +1074,7 @@ class BMPString(KnownMultiplierStringType):
 
 class GraphicString(KnownMultiplierStringType):
 
-    TAG = Tag.GENERAL_STRING
+    TAG = Tag.GRAPHIC_STRING
     ENCODING = 'latin-1'
 
 
